@@ -429,7 +429,12 @@ class Gen:
             self.emit({"op": "clearitems", "p": p})
 
     def risky(self, p):
+        """D38 trigger: [p] can be copied into an ItemSpace whose parent is another space"""
         return len(p) > 1 or tuple(p) in self.based
+
+    def base_under(self, q):
+        """D39 trigger: a space in the tree of [q] was named as 'base' by a parameter formula"""
+        return any(list(b[:len(q)]) == list(q) for b in self.based)
 
     # -- requests
     def op_getitem(self):
@@ -514,8 +519,8 @@ class Gen:
         nd = rng.choice(self.defs)
         p = nd["path"]
         paths = [n["path"] for n in self.defs]
-        if kind in ("newref", "delref", "delcells", "setparams", "newspace", "delspace") and \
-                (kind == "delspace" or self.risky(p)) and rng.random() < 0.65:
+        if ((kind == "setparams" and self.risky(p)) or (kind == "delspace" and self.base_under(p))) \
+                and rng.random() < 0.65:      # mostly steer away from the D38 / D39 triggers
             safe = [n for n in self.defs if not self.risky(n["path"])]
             if safe and kind != "delspace" and rng.random() < 0.6:
                 nd = rng.choice(safe); p = nd["path"]
@@ -598,12 +603,9 @@ class Gen:
             if node_of(self.defs, par["s"]) is None:
                 return False
             op = {"op": "delitem", "p": par["s"], "key": vals}
-        # precaution before the edits the pinned tree does not propagate (module doc)
+        # precaution before the edits the tree does not propagate (module doc): D38 and D39 only
         k = op["op"]
-        defective = (k in ("delref", "delcells", "setparams") or
-                     (k == "setref" and kind == "newref"))
-        if (k == "delspace") or (defective and self.risky(p)) or \
-           (k == "newspace" and len(op["q"]) > 1 and self.risky(op["q"][:-1])):
+        if (k == "setparams" and self.risky(p)) or (k == "delspace" and self.base_under(op["q"])):
             self.precaution()
         self.emit(op)
         self.apply(op)
